@@ -59,6 +59,10 @@ def gen_str(r, kind, sep, esc):
         alpha = sep + base
     elif kind == 'unicode':
         alpha = '\xe9€\U0001f600' + base
+    elif kind == 'control':
+        # characters that str.splitlines() - but not csv, and not a text file opened with universal newlines - treats as line
+        # boundaries: VT, FF, FS, GS, RS, NEL, LS, PS (form feeds from PDF text, GS1 separators in barcodes, U+2028 from the web)
+        alpha = '\x0b\x0c\x1c\x1d\x1e\x85\u2028\u2029' + base + sep[0]
     elif kind == 'dense_unicode':
         # almost every byte of the file belongs to a 2-4 byte character: some character straddles each 64 KiB read boundary
         return ''.join(r.choice('\xe9€\U0001f600\u4e2d' + sep[0]) for _ in range(r.randint(15, 40)))
@@ -88,7 +92,7 @@ def build_rows(spec, cols, sep, esc):
                 row.append(r.random() < 0.5)
             else:
                 row.append(gen_str(r, spec['skind'] if spec['skind'] != 'mixed' else
-                                   r.choice(['plain', 'blank', 'quote', 'escape', 'sep', 'unicode', 'adversarial']), sep, esc))
+                                   r.choice(['plain', 'blank', 'quote', 'escape', 'sep', 'unicode', 'adversarial', 'control']), sep, esc))
         rows.append(row)
     return rows
 
@@ -115,7 +119,7 @@ class C18(Check):
                    'floats are finite and compared with == plus sign']
     ANCHORS = ['rxsci/container/csv.py', 'rxsci/io/file.py', 'rxsci/framing/line.py']
     REQUIRED_TAGS = ['stream', 'file', 'enc=None', 'enc=utf-8', 'multi-chunk-file', 'cols=1', 'cols=8',
-                     'skind=adversarial', 'skind=huge', 'fkind=bits', 'sep=,', 'sep=;', 'sep=|', 'sep=tab', 'sep=multi', 'pushed-source', 'multibyte-char-across-a-64KiB-boundary']
+                     'skind=adversarial', 'skind=huge', 'skind=control', 'fkind=bits', 'sep=,', 'sep=;', 'sep=|', 'sep=tab', 'sep=multi', 'pushed-source', 'multibyte-char-across-a-64KiB-boundary']
     REQUIRED_OBSERVED = ['fields_compared', 'rows_needing_quote_merge']
 
     def __init__(self):
@@ -132,7 +136,7 @@ class C18(Check):
     def generate(self, rng, tier, shard, nshards):
         n = 8400 if tier == 'quick' else 10 ** 7
         nfiles = 14 if tier == 'quick' else 60
-        skinds = ['plain', 'blank', 'quote', 'escape', 'sep', 'unicode', 'adversarial', 'mixed']
+        skinds = ['plain', 'blank', 'quote', 'escape', 'sep', 'unicode', 'adversarial', 'mixed', 'control']
         fkinds = ['special', 'bits', 'decimal', 'digits17', 'integral', 'mixed']
         file_every = max(1, n // nfiles) if tier == 'quick' else 700
         for k in range(n):
